@@ -65,6 +65,30 @@ func OracleC19(tr *Trace) Verdict {
 			}
 		}
 	}
+	// a term must not begin with a dead context: OnPromote entered with a context that is already done,
+	// although the term it announces goes on beyond that instant and no stop call (or cancellation of the
+	// Start context) has begun since the claim went up
+	for _, t := range tr.Terms {
+		c := termClaim[t.ID]
+		if !t.CtxDoneAtEntry || c == nil || t.EnterT >= tr.End {
+			continue
+		}
+		if c.ToSeq >= 0 && c.ToT <= t.EnterT {
+			continue // the term ended before (or in the same instant as) the asynchronous callback ran
+		}
+		stopped := false
+		for _, a := range tr.APIs {
+			if a.Obj == t.Obj && (a.Call == "Stop" || a.Call == "StopWithContext" || a.Call == "CancelStartContext") && a.CallSeq > c.FromSeq && a.CallSeq < t.EnterSeq {
+				stopped = true
+			}
+		}
+		if stopped {
+			continue
+		}
+		v.Viols = append(v.Viols, Viol{At: t.EnterT, Sig: "C19 promote-ctx-done-at-term-start",
+			Msg: fmt.Sprintf("%s#%d: OnPromote for the term of token %.8s entered at %v with a context that is already done, yet the instance leads that term until %v and no stop call had begun", tr.ID(t.Inst), t.Obj, t.Token, t.EnterT, c.ToT)})
+		break
+	}
 	// when OnDemote is entered the term it reports has ended: its context must be done already
 	// (work bound to the context must not outlive the leadership, and OnDemote typically waits for that work)
 	failed := tr.failedStops()
